@@ -385,14 +385,24 @@ def rule_unreg_all(ctx, R):
     or times out a later blocking call"""
     n = 0
     for nm in ("unregister_client",):
-        b = ctx.prog.need(BR + nm)
-        lps = cfg.loops(b)
-        rem = []
-        for i, t in b.calls():
-            m = re.match(r"^std::collections::VecDeque::<network::blocking::BlockedClient>::(\w+)", t["f"] or "")
-            if m and m.group(1) in ("remove", "swap_remove_back", "swap_remove_front", "pop_front", "pop_back", "retain", "retain_mut", "drain"):
-                rem.append((i, m.group(1)))
-        for i, op in rem:
+        b0 = ctx.prog.need(BR + nm)
+        # the function and the closures it drives (`blocked_on_key.retain(|_, clients| { .. })`)
+        bodies = [b0]; seen_c = set()
+        k_ = 0
+        while k_ < len(bodies):
+            for _, t in bodies[k_].calls():
+                for c in t.get("clos") or []:
+                    if c not in seen_c and c in ctx.prog.bodies:
+                        seen_c.add(c); bodies.append(ctx.prog.bodies[c])
+            k_ += 1
+        allrem = []
+        for b in bodies:
+            for i, t in b.calls():
+                m = re.match(r"^std::collections::VecDeque::<network::blocking::BlockedClient>::(\w+)", t["f"] or "")
+                if m and m.group(1) in ("remove", "swap_remove_back", "swap_remove_front", "pop_front", "pop_back", "retain", "retain_mut", "drain"):
+                    allrem.append((b, i, m.group(1)))
+        for b, i, op in allrem:
+            lps = cfg.loops(b)
             n += 1
             ok = op in ("retain", "retain_mut")
             if not ok:
